@@ -51,6 +51,11 @@ type vfPKI struct {
 	CliSigCodeSign, CliEncCodeSign Certificate // EKU codeSigning only
 	// foreign key types, issued by A
 	RSALeaf, EdLeaf, P256Leaf Certificate
+	// an intermediate CA issued by A and server pairs issued by it (the chain is sent along)
+	I                                  *vfCA
+	ChainSig, ChainEnc                 Certificate
+	ChainSigExpired, ChainEncExpired   Certificate
+	ChainEncNotYet                     Certificate
 }
 
 var (
@@ -77,6 +82,27 @@ func vfNewCA(cn string) *vfCA {
 	p := x509.NewCertPool()
 	p.AddCert(c)
 	return &vfCA{c, k, p}
+}
+
+// sub creates an intermediate CA issued by ca.
+func (ca *vfCA) sub(cn string) *vfCA {
+	k, err := sm2.GenerateKey(rand.Reader)
+	if err != nil {
+		panic(err)
+	}
+	vfSerial++
+	tpl := &x509.Certificate{SerialNumber: big.NewInt(vfSerial), Subject: pkix.Name{CommonName: cn},
+		NotBefore: vfT0.AddDate(-4, 0, 0), NotAfter: vfT0.AddDate(4, 0, 0),
+		IsCA: true, BasicConstraintsValid: true, KeyUsage: x509.KeyUsageCertSign | x509.KeyUsageDigitalSignature}
+	der, err := x509.CreateCertificate(rand.Reader, tpl, ca.cert, &k.PublicKey, ca.key)
+	if err != nil {
+		panic(err)
+	}
+	c, err := x509.ParseCertificate(der)
+	if err != nil {
+		panic(err)
+	}
+	return &vfCA{c, k, nil}
 }
 
 var vfSerial int64 = 100
@@ -151,6 +177,10 @@ func vfGetPKI() *vfPKI {
 		p.EdLeaf = p.A.leaf(vfLeafOpt{cn: "ed-leaf", dns: dns, eku: append(srv, cli...), pub: epub, priv: epriv})
 		ek, _ := ecdsa.GenerateKey(elliptic.P256(), rand.Reader)
 		p.P256Leaf = p.A.leaf(vfLeafOpt{cn: "p256-leaf", dns: dns, eku: append(srv, cli...), pub: &ek.PublicKey, priv: ek})
+		p.I = p.A.sub("vf-intermediate")
+		p.ChainSig, p.ChainEnc = p.I.pair("srv-chain", z, z, dns, srv)
+		p.ChainSigExpired, p.ChainEncExpired = p.I.pair("srv-chain-exp", vfT0.AddDate(-3, 0, 0), vfT0.AddDate(-2, 0, 0), dns, srv)
+		_, p.ChainEncNotYet = p.I.pair("srv-chain-notyet", vfT0.AddDate(2, 0, 0), vfT0.AddDate(3, 0, 0), dns, srv)
 		vfPKIVal = p
 	})
 	return vfPKIVal
